@@ -31,6 +31,11 @@ Round 4 additions (all under the monitors above):
                    rep.elements(words) @ p.  mixed-product: inverse and identity laws
                    for Transformation @ Isometry (an Isometry object with a general
                    matrix) and Isometry @ Transformation.
+  structured       A, B from structured classes (complex unitary: phases / QR / Householder
+                   / monomial / rotation; scaled unitary; real orthogonal; permutation;
+                   oblique involution; unipotent; Hermitian positive) on complex object
+                   data incl. dual objects; representations with such generators and
+                   their inverse letters.
   enumerations     (in words) every enumeration route of a representation
                    (automaton_accepted default / start_state / end_state, maxlen,
                    with and without words, freely_reduced_elements): element i acts
@@ -665,8 +670,14 @@ def wl_dual(run, rng, idx):
     araw = G.draw(rng, "P.Transformation", n, ashape, cx=cx)
     braw = G.draw(rng, "P.Transformation", n, bshape, cx=cx)
     MA, MB = araw["M"], braw["M"]
+    dual_laws(run, mon, idx, kind, n, oshape, ashape, bshape, cx, raw, MA, MB, "P.Transformation")
+
+
+def dual_laws(run, mon, idx, kind, n, oshape, ashape, bshape, cx, raw, MA, MB, maps):
+    """the laws for one dual-carrying object and row matrices MA, MB."""
+    from geometry_tools import projective as P
     case = {"kind": kind, "dimension": n, "object_shape": list(oshape), "A_shape": list(ashape),
-            "B_shape": list(bshape), "maps": "P.Transformation", "field": "complex" if cx else "real",
+            "B_shape": list(bshape), "maps": maps, "field": "complex" if cx else "real",
             "X(rows)": raw["X"], "X(dual)": raw["D"], "A(row matrix)": MA, "B(row matrix)": MB}
     run.current_case = case
     X = GX.build_dual(kind, raw)
@@ -675,7 +686,8 @@ def wl_dual(run, rng, idx):
     cA = float(np.max(np.linalg.cond(MA)))
     cB = float(np.max(np.linalg.cond(MB)))
     tol = BASE_TOL * (1.0 + cA * cB)
-    sig = (kind, n, oshape, ashape, bshape, "complex" if cx else "real")
+    sig = (kind, n, oshape, ashape, bshape, "complex" if cx else "real") + \
+        (() if maps == "P.Transformation" else (maps,))
     if not mon.require(type(X).__name__ == kind.split(".")[1].split("/")[0] and tuple(X.shape) == tuple(oshape)
                        and X.dual_data is not None
                        and rp.max_row_dev(X.dual_data, raw["D"]) <= 1e-13
@@ -717,6 +729,10 @@ def wl_dual(run, rng, idx):
                 mon.judge(rp.max_row_dev(back.dual_data[ridx], X.dual_data[oi]), tol,
                           "action-laws/inverse/dual",
                           "A.inv()@(A@X) differs from X on the DUAL data of a %s" % kind, case)
+    # (A.inv()@A)@X ~ A.inv()@(A@X), dual data included
+    LI = (A.inv() @ A) @ X
+    same_dual_object(mon, "associativity-with-inverse", kind, LI, back, tol, case,
+                     np.broadcast_shapes(oshape, ashape))
     run.note_class("dual-inverse", *sig)
 
     # the primary data by hand, the derived edges by the reference formula
@@ -1076,6 +1092,126 @@ def _relator_words(run, rng, idx, n, hyp):
 
 
 # ---------------------------------------------------------------------------
+# structured matrices
+
+STRUCT_KINDS = ["P.Point", "P.Polygon", "P.ProjectiveObject/u2", "P.Transformation", "P.PointPair",
+                "P.ProjectiveObject/u1", "P.Subspace", "P.Simplex", "P.ConvexPolygon"]
+STRUCT_SHAPES = [((), (), ()), ((3,), (), ()), ((3,), (3,), ()), ((2, 3), (3,), (3,)), ((), (3,), ()),
+                 ((3,), (), (3,)), ((1, 3), (1,), (3,))]
+
+
+def wl_structured(run, rng, idx):
+    """the laws with A, B from *structured* classes -- complex unitary (diagonal
+    of phases, Haar/QR factor, Householder reflection, monomial, conjugated
+    plane rotation), scaled unitary, real orthogonal, permutation, oblique
+    involution, unipotent, Hermitian positive -- on genuinely complex object
+    data, through every route that inverts: A.inv(), (A@B).inv(), the inverse
+    round trip, associativity with the inverse, dual objects, inverse letters
+    of a representation.  The general workloads draw Gaussian matrices, which
+    belong to none of the classes a numerical shortcut tests for (seeded change
+    C03-r7-2: utils.invert returns the plain transpose whenever M M^* = I, i.e.
+    the conjugate of the inverse of a complex unitary matrix)."""
+    from geometry_tools import projective as P
+    mon = run.monitor("action-laws")
+    ns = len(GX.STRUCTURED)
+    sa = GX.STRUCTURED[idx % ns]
+    r = idx // ns
+    kind = STRUCT_KINDS[(r + idx) % len(STRUCT_KINDS)]
+    # B: the same class, another class, or a general matrix
+    sb = [sa, GX.STRUCTURED[(idx + 1 + r) % ns], "general"][(r + idx // 2) % 3]
+    dual = kind in GX.DUAL_KINDS
+    cx = (idx % 4 != 3) and (not dual or GX.DUAL_KINDS[kind][3])
+    oshape, ashape, bshape = STRUCT_SHAPES[(r + idx // 3) % len(STRUCT_SHAPES)]
+    lo = GX.DUAL_KINDS[kind][0] if dual else G.KINDS[kind][0]
+    n = lo + (r + idx // 5) % (4 - lo + 1)
+    d = n + 1
+    MA = GX.draw_structured(rng, d, sa, ashape, cx)
+    MB = rp.rand_invertible(rng, d, bshape, cx=cx) if sb == "general" \
+        else GX.draw_structured(rng, d, sb, bshape, cx)
+    label = "structured:%s,%s" % (sa, sb)
+    if dual:
+        raw = GX.draw_dual(rng, kind, n, oshape, cx=cx)
+        dual_laws(run, mon, idx, kind, n, oshape, ashape, bshape, cx, raw, MA, MB, label)
+    else:
+        raw = G.draw(rng, kind, n, oshape, cx=cx)
+        case = {"kind": kind, "dimension": n, "object_shape": list(oshape), "A_shape": list(ashape),
+                "B_shape": list(bshape), "maps": label, "field": "complex" if cx else "real",
+                "X": raw, "A(row matrix)": MA, "B(row matrix)": MB}
+        run.current_case = case
+        X = G.build(kind, raw)
+        A = P.Transformation(MA.copy())
+        B = P.Transformation(MB.copy())
+        check_laws(run, mon, kind, n, oshape, ashape, bshape, "P.Transformation", cx, raw, X, A, B,
+                   MA, MB, case, idx, label=label, inverse_assoc=True)
+        # the inverse by hand
+        Ai = A.inv()
+        cA = float(np.max(np.linalg.cond(MA)))
+        mon.judge(rp.max_mat_dev(Ai.proj_data, np.linalg.inv(MA)), BASE_TOL * max(cA, 1.0) ** 2,
+                  "action-laws/inverse/by-hand/matrix",
+                  "A.inv() is not the inverse matrix of a structured A (%s)" % sa, case)
+    run.note_class("structured", sa, sb, kind, n, "complex" if cx else "real", ashape)
+    if idx % 2 == 0:
+        _structured_words(run, rng, idx, n, cx)
+
+
+def _structured_words(run, rng, idx, n, cx):
+    """a representation whose generators are structured: the inverse letters
+    (computed by the library when the generator is assigned) must act as the
+    inverse matrices."""
+    from geometry_tools import projective as P
+    mon = run.monitor("representation-action")
+    d = n + 1
+    ns = len(GX.STRUCTURED)
+    k = idx // 2
+    sa, sb = GX.STRUCTURED[k % ns], GX.STRUCTURED[(k // ns + k + 3) % ns]
+    gens = {"a": GX.draw_structured(rng, d, sa, (), cx), "b": GX.draw_structured(rng, d, sb, (), cx)}
+    rep = P.ProjectiveRepresentation()
+    rep["a"] = P.Transformation(gens["a"].copy(), column_vectors=True)
+    if k % 3 == 2:
+        rep["B"] = P.Transformation(np.linalg.inv(gens["b"]).T.copy())     # through the inverse letter
+    else:
+        rep["b"] = P.Transformation(gens["b"].T.copy())
+    pshape = c04.pick([(), (3,), (2, 3)], k)
+    x = G.draw(rng, "P.Point", n, pshape, cx=cx)["X"]
+    p = P.Point(x.copy())
+    words = ["A", "B", "aA", "Ab", "BA", "abAB", rp.random_word(rng, "ab", 5), rp.random_word(rng, "ab", 8)]
+    case = {"representation": "ProjectiveRepresentation", "dimension": n, "generators(column)": gens,
+            "generator_classes": [sa, sb], "point": x, "words": words,
+            "field": "complex" if cx else "real"}
+    run.current_case = case
+    good, exps = [], []
+    for w in words:
+        Mw, scale = rp.word_matrix(gens, w)
+        exp = np.einsum("ij,...j->...i", Mw, x)
+        with np.errstate(all="ignore"):
+            kappa = float(np.max(scale * np.linalg.norm(x, axis=-1) / np.linalg.norm(exp, axis=-1)))
+        if not np.isfinite(kappa) or kappa > 1e6:
+            mon.skip("ill-conditioned word (cancellation > 1e6)")
+            continue
+        tolw = 1e-10 * max(kappa, 1.0) * len(w)
+        T = rep[w]
+        mon.judge(rp.max_row_dev((T @ p).proj_data, exp), tolw, "representation-action/word-image",
+                  "rep[w]@p differs from (product of the assigned generator matrices along w)"
+                  "(column vector of p)", dict(case, word=w))
+        mon.judge(rp.max_row_dev((T.inv() @ (T @ p)).proj_data, x), tolw,
+                  "representation-action/word-inverse/round-trip",
+                  "rep[w].inv() @ (rep[w] @ p) differs from p", dict(case, word=w))
+        good.append(w)
+        exps.append((exp, tolw))
+    if good:
+        img = rep.transformations(good).apply(p, "pairwise")
+        if mon.require(tuple(img.shape) == tuple(pshape) + (len(good),),
+                       "representation-action/pairwise-shape",
+                       "elements.apply(p, 'pairwise') has shape %r" % (img.shape,), case):
+            for j, w in enumerate(good):
+                mon.judge(rp.max_row_dev(img.proj_data[..., j, :], exps[j][0]), exps[j][1],
+                          "representation-action/pairwise-word-image",
+                          "elements(words).apply(p,'pairwise')[i][j] differs from word j's "
+                          "matrix applied to point i", dict(case, word=w))
+    run.note_class("structured-word", sa, sb, n, pshape, "complex" if cx else "real")
+
+
+# ---------------------------------------------------------------------------
 # representations
 
 def wl_words(run, rng, idx):
@@ -1392,4 +1528,5 @@ WORKLOADS = [
     Workload("dual-objects", wl_dual, quick=210, thorough=4000),
     Workload("exact-dyadic", wl_dyadic, quick=180, thorough=3000),
     Workload("exact-identity", wl_exact_identity, quick=152, thorough=3000),
+    Workload("structured", wl_structured, quick=180, thorough=3000),
 ]
